@@ -16,7 +16,7 @@
                    nan_ok         NaN other than float("nan") / NaN inside repeated or map  (cls nan-payload, nan-in-container)
    All theorems are about to_dict(include_default_values=False) (the default); obj_eq is Message.__eq__, enc_obj is bytes(). *)
 From BP Require Import Base.Prelude Model.Types Model.Object Model.Eq Model.TimeCore Model.Encode Model.WellFormed Model.Json.
-From BP Require Import Proofs.C04Def Proofs.C04ScalarP Proofs.C04CalP Proofs.C04CalSweepP Proofs.C04ObjP Proofs.C04RtP4 Proofs.C04WitP.
+From BP Require Import Proofs.C04Def Proofs.C04ScalarP Proofs.C04CalP Proofs.C04CalSweepP Proofs.C04ObjP Proofs.C04RtP4 Proofs.C04MainP Proofs.C04WitP.
 
 (* ---- the oracles inside the model, proved rather than assumed ---- *)
 Theorem C04_base64_inverse : forall bs, b64decode (b64encode bs) = Ok bs.
@@ -48,11 +48,7 @@ Theorem C04_dict_rt_partial : forall sc cs m,
   wf_schema sc = true -> keys_ok cs sc = true -> good sc m = true ->
   exists m', from_dict_cls sc (ocls m) (to_dict cs false sc m) = Ok m' /\
              obj_eq sc m' m = true /\ enc_obj sc m' = enc_obj sc m.
-Proof.
-  intros sc cs m W K G. exists (norm_obj sc m). split.
-  - exact (from_to_dict_norm sc cs false W K m G).
-  - exact (norm_faithful sc W m G).
-Qed.
+Proof. exact dict_rt. Qed.
 Print Assumptions C04_dict_rt_partial.
 
 (* ---- the same through json.loads(json.dumps(.)): object keys arrive as strings, NaN as the one NaN.
@@ -61,11 +57,7 @@ Theorem C04_text_rt_partial : forall sc cs m,
   wf_schema sc = true -> keys_ok cs sc = true -> good sc m = true ->
   exists m', from_dict_cls sc (ocls m) (text_rt (to_dict cs false sc m)) = Ok m' /\
              obj_eq sc m' m = true /\ enc_obj sc m' = enc_obj sc m.
-Proof.
-  intros sc cs m W K G. exists (norm_obj sc m). split.
-  - exact (from_to_dict_norm sc cs true W K m G).
-  - exact (norm_faithful sc W m G).
-Qed.
+Proof. exact text_rt_rt. Qed.
 Print Assumptions C04_text_rt_partial.
 
 (* ---- the classes of values outside json_supported really fail (each replayed on the implementation) ---- *)
